@@ -256,7 +256,7 @@ def run(ctx_):
             res["failures"].append(desc)
     res["coverage"] = {
         "evaluations": nscen, "distinct_nontrivial": ndistinct,
-        "rule": "%d generated interfaces of %d methods (1-6 parameters over interface, IFoo, IFoo[1..3], struct SO{interface;u64;u64}, struct ST{IFoo;interface}, uint32, "
+        "rule": "%d generated interfaces of %d methods (1-6 parameters over interface, IFoo, IFoo[1..3], interface[1..3], struct SO{interface;u64;u64}, struct ST{IFoo;interface}, uint32, "
                 "both directions); every method is called with %d valuations (null / non-null / aliased inputs, outputs equal to inputs or fresh or null; "
                 "the C++ caller also with pre-filled output proxies) x {success, error 11} x 9 pairings (C, C++, Rust stub x C, C++, Rust skeleton), "
                 "counting objects freed at 0, gcc/g++ -Wall -Wextra -Werror with ASan+UBSan, rustc staticlib; non-trivial = a call with at least one object position"
